@@ -34,8 +34,8 @@ def strategy_(draw):
     n = len(case['rows'])
     var = {'index': draw(st.sampled_from(INDEX_KINDS))}
     if var['index'] == 'shuffled':
-        var['perm'] = list(draw(st.permutations(range(n))))
-    var['cols'] = list(draw(st.permutations(['ceilo', 'dt', 'height', 'type'])))
+        var['perm'] = list(draw(S.permutation(range(n))))
+    var['cols'] = list(draw(S.permutation(['ceilo', 'dt', 'height', 'type'])))
     var['extra'] = draw(st.lists(st.sampled_from(['const', 'unique', 'slice_id', 'group_id', 'layer_id', 'index',
                                                   'height_base']), max_size=3, unique=True))
     var['dtypes'] = {'ceilo': draw(st.sampled_from(['string', 'string', 'object', 'str'])),
